@@ -27,6 +27,10 @@ pub struct Run<'a> {
     pub next_value: u64,
     pub aborted: bool,
     pub orphaned: Vec<(AbsTx, CompactTx)>,
+    /// transactions the wallet created itself (C08 driver); mined later, or never
+    pub created: Vec<crate::chain::Created>,
+    /// multiplier for economic note values (the C08 driver makes some histories richer: more proposals succeed)
+    pub value_scale: u64,
     /// also project the note commitment trees (C06) after every operation
     pub trees: bool,
     pub salt: u64,
@@ -44,7 +48,7 @@ impl<'a> Run<'a> {
         let (w, keys) = W::with_retention(ironwood, interval);
         let chain = Chain::new(w.base, keys, &mut rng, ironwood);
         let trees = std::env::var("VERIF_TREES").map(|v| v == "1").unwrap_or(false);
-        let mut r = Run { w, chain, out, rng, ironwood, next_value: 0, aborted: false, orphaned: vec![], trees, salt: seed, shard: None };
+        let mut r = Run { w, chain, out, rng, ironwood, next_value: 0, aborted: false, orphaned: vec![], created: vec![], value_scale: 1, trees, salt: seed, shard: None };
         let post = r.post();
         // retention grid of this wallet: interval (0: policy inactive, NU6.3 not active) and first height it applies to
         let grid = if ironwood { interval.unwrap_or(144) } else { 0 };
@@ -59,7 +63,7 @@ impl<'a> Run<'a> {
         let (w, keys, init) = W::sharded(ironwood, sap, orch);
         let chain = Chain::with_initial(w.base, keys, &mut rng, ironwood, &init);
         let trees = std::env::var("VERIF_TREES").map(|v| v == "1").unwrap_or(false);
-        let mut r = Run { w, chain, out, rng, ironwood, next_value: 0, aborted: false, orphaned: vec![], trees, salt: seed, shard: Some((sap, orch)) };
+        let mut r = Run { w, chain, out, rng, ironwood, next_value: 0, aborted: false, orphaned: vec![], created: vec![], value_scale: 1, trees, salt: seed, shard: Some((sap, orch)) };
         let post = r.post();
         let grid = if ironwood { 144 } else { 0 };
         let gbase = r.w.base;
@@ -198,6 +202,13 @@ impl<'a> Run<'a> {
         to_abs
     }
 
+    /// A transaction the wallet created that could be mined in the next block (and is not on the chain already).
+    pub fn pick_created(&mut self) -> Option<crate::chain::Created> {
+        let on_chain: Vec<u32> = self.chain.blocks.values().flat_map(|b| b.txs.iter().map(|t| t.uid)).collect();
+        let c: Vec<&crate::chain::Created> = self.created.iter().filter(|c| !on_chain.contains(&c.abs.uid) && self.chain.mineable(c)).collect();
+        if c.is_empty() { None } else { Some(c[self.rng.gen_range(0..c.len())].clone()) }
+    }
+
     pub fn scanned(&self) -> Vec<i64> {
         self.w.project(&self.chain)["blocks"].as_array().unwrap().iter().map(|v| v.as_i64().unwrap()).collect()
     }
@@ -325,7 +336,7 @@ impl<'a> Run<'a> {
             0 => 5000,
             1 => 5001,
             2 => 4999 - (self.next_value % 7),
-            _ => 10_000 + 1_000 * (self.next_value % 400) + self.rng.gen_range(0..1000),
+            _ => self.value_scale * (10_000 + 1_000 * (self.next_value % 400)) + self.rng.gen_range(0..1000),
         }
     }
 
@@ -371,9 +382,11 @@ impl<'a> Run<'a> {
             match self.rng.gen_range(0..3) {
                 0 => outs.push(OutReq { pool, acct: 0, internal: false, diversified: false, value: total }),
                 1 => {
-                    let pay = total / 3 + 1;
+                    let pay = (total / 3 + 1).min(total);
                     outs.push(OutReq { pool, acct: 0, internal: false, diversified: false, value: pay });
-                    outs.push(OutReq { pool, acct: 1, internal: pool != Pool::Sapling, diversified: false, value: total - pay });
+                    if total > pay {
+                        outs.push(OutReq { pool, acct: 1, internal: pool != Pool::Sapling, diversified: false, value: total - pay });
+                    }
                 }
                 _ => outs.push(OutReq { pool, acct: 1, internal: false, diversified: false, value: total.saturating_sub(1000).max(1) }),
             }
